@@ -3,6 +3,8 @@
 package cl
 
 import (
+	"math/big"
+
 	"github.com/ohler55/slip"
 )
 
@@ -17,9 +19,9 @@ func init() {
 			Name: "gcd",
 			Args: []*slip.DocArg{
 				{Name: "&rest"},
-				{Name: "integers", Type: "fixnum"},
+				{Name: "integers", Type: "integer"},
 			},
-			Return: "fixnum",
+			Return: "integer",
 			Text:   `__gcd__ returns the greatest common divisor of _integers_.`,
 			Examples: []string{
 				"(gcd) => 0",
@@ -40,7 +42,10 @@ func (f *Gcd) Call(s *slip.Scope, args slip.List, depth int) slip.Object {
 	for i, a := range args {
 		num, ok := a.(slip.Fixnum)
 		if !ok {
-			slip.TypePanic(s, depth, "integers", a, "fixnum")
+			if _, ok = a.(*slip.Bignum); ok {
+				return bigGcd(s, args, depth)
+			}
+			slip.TypePanic(s, depth, "integers", a, "integer")
 		}
 		if num < 0 {
 			num = -num
@@ -59,4 +64,27 @@ func gcd(x, y slip.Fixnum) slip.Fixnum {
 		x, y = y, x%y
 	}
 	return x
+}
+
+// bigGcd is the fallback for integers that are not all fixnums.
+func bigGcd(s *slip.Scope, args slip.List, depth int) slip.Object {
+	var z big.Int
+	for _, a := range args {
+		switch ta := a.(type) {
+		case slip.Fixnum:
+			z.GCD(nil, nil, &z, big.NewInt(int64(ta)))
+		case *slip.Bignum:
+			z.GCD(nil, nil, &z, (*big.Int)(ta))
+		default:
+			slip.TypePanic(s, depth, "integers", a, "integer")
+		}
+	}
+	return bigToInteger(&z)
+}
+
+func bigToInteger(bi *big.Int) slip.Object {
+	if bi.IsInt64() {
+		return slip.Fixnum(bi.Int64())
+	}
+	return (*slip.Bignum)(bi)
 }
